@@ -32,6 +32,7 @@ struct Plan {
     int logfd = -1;
     long n_all = 0, n_write = 0, injected = 0;
     std::string failed_path;  // destination hit by a persistent fault
+    std::string rename_err;   // EXDEV | EBUSY: every rename of a watched file fails with it (any mode)
 } plan;
 
 std::string fd_path(int fd) {
@@ -78,6 +79,7 @@ void sys_configure(const json& p, const std::string& logpath) {
     plan.short_bytes = p.value("short", 0L);
     plan.persist = p.value("persist", false);
     plan.watch = p.value("watch", std::string());
+    plan.rename_err = p.value("rename_err", std::string());
     if (!logpath.empty())
         plan.logfd = static_cast<int>(syscall(SYS_open, logpath.c_str(), O_CREAT | O_WRONLY | O_APPEND, 0644));
     plan.active = true;
@@ -162,6 +164,11 @@ ssize_t writev(int fd, const struct iovec* iov, int iovcnt) {
 int rename(const char* oldp, const char* newp) {
     if (plan.active && oldp && watched(oldp)) {
         before_call("rename", oldp, 0);
+        if (!plan.rename_err.empty()) {
+            logline("{\"n\":%ld,\"call\":\"rename\",\"path\":\"%s\",\"to\":\"%s\",\"res\":-1,\"injected\":\"%s\"}\n", plan.n_all, oldp, newp, plan.rename_err.c_str());
+            errno = plan.rename_err == "EBUSY" ? EBUSY : EXDEV;
+            return -1;
+        }
         int r = static_cast<int>(syscall(SYS_rename, oldp, newp));
         logline("{\"n\":%ld,\"call\":\"rename\",\"path\":\"%s\",\"to\":\"%s\",\"res\":%d}\n", plan.n_all, oldp, newp, r);
         return r;
